@@ -93,15 +93,18 @@ def run(ctx):
             key = "acquire:%s:%s" % (bid, mode)
             from ..owners import for_crate
             os_ = for_crate(lib).of(bid)
-            if os_ and all(o in SITES and SITES[o][0] == mode for o in os_) and bid not in SITES:
-                res.ok(key, b.where(c.line), "in a helper of %s" % ", ".join(sorted(os_)))
-            elif bid not in SITES:
-                res.bad(key, "new lock acquisition (%s) in %s: not one of the reviewed sites %s" % (c.callee, bid, sorted(SITES)), b.where(c.line))
-                continue
-            if SITES[bid][0] != mode:
+            if bid not in SITES:
+                if os_ and all(o in SITES and SITES[o][0] == mode for o in os_):
+                    res.ok(key, b.where(c.line), "in a helper of %s" % ", ".join(sorted(os_)))
+                else:
+                    res.bad(key, "new lock acquisition (%s, %s mode) in %s: not one of the reviewed sites %s (nor a helper called only "
+                                 "from sites of that mode)" % (c.callee, mode, bid, sorted(SITES)), b.where(c.line))
+                    continue
+            elif SITES[bid][0] != mode:
                 res.bad(key, "%s acquires the cell in %s mode, reviewed mode is %s" % (bid, mode, SITES[bid][0]), b.where(c.line))
                 continue
-            res.ok(key, b.where(c.line), SITES[bid][1])
+            else:
+                res.ok(key, b.where(c.line), SITES[bid][1])
             # nesting / re-entry inside the live region
             roots = []
             for rc in region_callees(b, region):
